@@ -117,10 +117,11 @@ package leader
 //@ objinv disconnectHandler C11.handler_has_election: this.election != nil
 
 //@ lockinv kvElection.mu C18+C02+C01.claim_iff_state:        isLeader == (state == "LEADER")
+//@ lockinv kvElection.mu C20+C09.no_run_under_a_waiting_stop: stopsWaiting > 0 ==> stopped
 //@ lockinv kvElection.mu C20+C09.waiting_stops_counted: stopsWaiting >= caller.stopsAnnouncedHere && caller.stopsAnnouncedHere >= 0
 //@ lockinv kvElection.mu C02.claim_implies_running:  isLeader ==> (ctx != nil && !stopped)
 //@ lockinv kvElection.mu C18+C02+C09.stopped_implies_state:  stopped ==> state == "STOPPED"
-//@ lockinv kvElection.mu C09+C19.cancel_set_with_ctx:    ctx != nil ==> cancel != nil
+//@ lockinv kvElection.mu C09+C19.cancel_set_with_ctx:    ctx != nil && !stopped ==> cancel != nil
 //@ lockinv kvElection.mu C19.term_cancel_set:            isLeader ==> termCancel != nil
 //@ lockinv kvElection.mu C01.leader_has_written:         isLeader ==> revSet
 
@@ -620,11 +621,13 @@ package leader
 //@   ghost firstLock Bool = true
 //@   on lock kvElection.mu when firstLock set wasLeaderL = e.isLeader
 //@   on lock kvElection.mu when firstLock set ctxNilL = e.ctx == nil
+//@   ghost stoppedL Bool = false
+//@   on lock kvElection.mu when firstLock set stoppedL = e.stopped
 //@   on lock kvElection.mu set firstLock = false
 //@   ghost mayCancelElection Bool = true
 //@   ghost firstUnlock Bool = true
 //@   on call cancel set e.stopped = true
-//@   on unlock kvElection.mu when firstUnlock assert C19+C09.stop_cancels_before_release: ctxNilL || calls(cancel) == 1
+//@   on unlock kvElection.mu when firstUnlock assert C19+C09.stop_cancels_before_release: ctxNilL || stoppedL || calls(cancel) == 1
 //@   on unlock kvElection.mu set firstUnlock = false
 //@   on load kvElection.onDemote as l when l.value == nil set demoteNilSeen = true
 //@   on call wg.Wait assert C09.stop_waits_time_boxed: inspawn()
@@ -653,14 +656,16 @@ package leader
 //@   ghost firstLock Bool = true
 //@   on lock kvElection.mu when firstLock set wasLeaderL = e.isLeader
 //@   on lock kvElection.mu when firstLock set ctxNilL = e.ctx == nil
+//@   ghost stoppedL Bool = false
+//@   on lock kvElection.mu when firstLock set stoppedL = e.stopped
 //@   on lock kvElection.mu set firstLock = false
 //@   ghost mayCancelElection Bool = true
 //@   ghost firstUnlock Bool = true
 //@   on call cancel set e.stopped = true
-//@   on unlock kvElection.mu when firstUnlock assert C19+C09.stop_cancels_before_release: ctxNilL || calls(cancel) == 1
+//@   on unlock kvElection.mu when firstUnlock assert C19+C09.stop_cancels_before_release: ctxNilL || stoppedL || calls(cancel) == 1
 //@   on unlock kvElection.mu set firstUnlock = false
-//@   on call KeyValue.Delete assert C19+C09.delete_after_cancel: calls(cancel) == 1
-//@   on call RevisionDeleter.DeleteRevision assert C19+C09.delete_after_cancel: calls(cancel) == 1
+//@   on call KeyValue.Delete assert C19+C09.delete_after_cancel: stoppedL || calls(cancel) == 1
+//@   on call RevisionDeleter.DeleteRevision assert C19+C09.delete_after_cancel: stoppedL || calls(cancel) == 1
 //@   on load kvElection.onDemote as l when l.value == nil set demoteNilSeen = true
 //@   on call KeyValue.Delete set mayDelete = opts.DeleteKey && wasLeaderL
 //@   on call RevisionDeleter.DeleteRevision set mayDelete = opts.DeleteKey && wasLeaderL
